@@ -55,10 +55,13 @@ pub struct Case {
     pub stop: u64,
     pub cache: &'static str, // fresh | keep | off
     pub tag: String,
-    /// game clock for both sides (ms) and the virtual-clock divisor (0 = no clock limits)
-    pub clock_ms: u64,
+    /// time limits `[wtime, btime, winc, binc, movetime]` (ms) and the virtual-clock divisor (0 = the real clock, no time limits)
+    pub tc: [Option<u64>; 5],
     pub vdiv: u64,
 }
+
+pub const NO_TC: [Option<u64>; 5] = [None; 5];
+const TC_NAMES: [&str; 5] = ["wtime", "btime", "winc", "binc", "movetime"];
 
 pub fn setup_board(fen: &str, moves: &[String]) -> Option<Board> {
     let mut b = Board::from_fen(fen);
@@ -82,7 +85,21 @@ pub fn run_case_best(c: &Case) -> Option<Ply> {
         c.nodes.map_or("-".to_string(), |n| n.to_string()),
         c.stop,
         c.cache,
-        if c.vdiv > 0 { format!(" clock={} vdiv={}{}", c.clock_ms, c.vdiv, if c.tag.is_empty() { String::new() } else { format!(" {}", c.tag) }) } else if c.tag.is_empty() { String::new() } else { format!(" {}", c.tag) }
+        {
+            let mut t = String::new();
+            if c.vdiv > 0 {
+                for (i, n) in TC_NAMES.iter().enumerate() {
+                    if let Some(v) = c.tc[i] {
+                        t.push_str(&format!(" {n}={v}"));
+                    }
+                }
+                t.push_str(&format!(" vdiv={}", c.vdiv));
+            }
+            if !c.tag.is_empty() {
+                t.push_str(&format!(" {}", c.tag));
+            }
+            t
+        }
     );
     let Some(board) = setup_board(&c.fen, &c.moves) else {
         println!("X bad-case");
@@ -98,8 +115,9 @@ pub fn run_case_best(c: &Case) -> Option<Ply> {
     // exactly what `Uci::go` builds for `go depth D [nodes N]`: the depth limit is in the limits too
     let mut limits = SearchLimits::new().nodes(c.nodes).depth(Some(c.depth));
     if c.vdiv > 0 {
-        // `go wtime T btime T` with the virtual clock: the time-management timer is T / 20 ms for either side
-        limits = limits.white_time(Some(u128::from(c.clock_ms))).black_time(Some(u128::from(c.clock_ms)));
+        // exactly what `parse_go` builds for `go wtime .. btime .. winc .. binc .. movetime ..`, measured on the virtual clock
+        let g = |i: usize| c.tc[i].map(u128::from);
+        limits = limits.white_time(g(0)).black_time(g(1)).white_increment(g(2)).black_increment(g(3)).movetime(g(4));
     }
     sv::VCLOCK_CALLS.store(0, Ordering::Relaxed);
     sv::VCLOCK_DIV.store(c.vdiv, Ordering::Relaxed);
@@ -153,6 +171,16 @@ pub fn run_case_best(c: &Case) -> Option<Ply> {
 }
 
 /// positions: seeds, bench FENs, and positions reached by random play (kept with their move history)
+/// roots with exactly one legal move (in check and not), and roots without any (mated, stalemated)
+pub const FORCED: [(&str, &str); 6] = [
+    ("7k/8/8/8/8/8/5PP1/r5K1 w - - 0 1", ""),
+    ("rnbqkbnr/pppppppp/8/8/8/8/PPPPPPPP/RNBQKBNR w KQkq - 0 1", "e2e4 f7f5 d1h5"),
+    ("7k/7p/7P/8/8/8/8/K7 b - - 0 1", ""),
+    ("8/8/8/8/8/5k2/4p3/4K3 w - - 0 1", ""),
+    ("k7/8/1Q6/8/8/8/8/7K b - - 0 1", ""),
+    ("rnb1kbnr/pppp1ppp/8/4p3/6Pq/5P2/PPPPP2P/RNBQKBNR w KQkq - 1 3", ""),
+];
+
 fn positions(rng: &mut Rng, n: usize, bench: bool) -> Vec<(String, Vec<String>)> {
     let mut v: Vec<(String, Vec<String>)> = vec![];
     for f in super::walk::SEEDS.iter() {
@@ -235,20 +263,28 @@ pub fn search_stream(args: &[String]) {
                     stop: f[4].parse().unwrap_or(0),
                     cache,
                     tag: f.get(6).map(|x| x.to_string()).unwrap_or_default(),
-                    clock_ms: 0,
-                    vdiv: 0,
+                    // optional: `wtime,btime,winc,binc,movetime` (`-` = absent) and the virtual-clock divisor
+                    tc: f.get(7).map_or(NO_TC, |x| {
+                        let mut tc = NO_TC;
+                        for (i, v) in x.split(',').take(5).enumerate() {
+                            tc[i] = v.trim().parse().ok();
+                        }
+                        tc
+                    }),
+                    vdiv: f.get(8).and_then(|x| x.parse().ok()).unwrap_or(0),
                 });
             }
         }
         "plain" | "off" => {
-            for (fen, moves) in pos.iter().take(count) {
+            let forced: Vec<(String, Vec<String>)> = FORCED.iter().map(|(f, m)| (f.to_string(), m.split_whitespace().map(str::to_string).collect())).collect();
+            for (fen, moves) in forced.iter().chain(pos.iter().take(count)) {
                 if !mine(&mut idx) {
                     continue;
                 }
                 let d = 1 + (rng.below(u64::from(maxdepth))) as u8;
                 for depth in [d, maxdepth] {
                     for _ in 0..repeat {
-                        run_case(&Case { fen: fen.clone(), moves: moves.clone(), depth, nodes: None, stop: 0, cache: if mode == "off" { "off" } else { "fresh" }, tag: String::new(), clock_ms: 0, vdiv: 0 });
+                        run_case(&Case { fen: fen.clone(), moves: moves.clone(), depth, nodes: None, stop: 0, cache: if mode == "off" { "off" } else { "fresh" }, tag: String::new(), tc: NO_TC, vdiv: 0 });
                     }
                 }
             }
@@ -278,7 +314,7 @@ pub fn search_stream(args: &[String]) {
                 let mut k = 1 + off;
                 while k <= total + 1 {
                     let (nodes, stop) = if mode == "budget" { (Some(k), 0) } else { (None, k) };
-                    run_case(&Case { fen: fen.clone(), moves: moves.clone(), depth: maxdepth, nodes, stop, cache: "fresh", tag: String::new(), clock_ms: 0, vdiv: 0 });
+                    run_case(&Case { fen: fen.clone(), moves: moves.clone(), depth: maxdepth, nodes, stop, cache: "fresh", tag: String::new(), tc: NO_TC, vdiv: 0 });
                     k += step;
                 }
             }
@@ -296,7 +332,7 @@ pub fn search_stream(args: &[String]) {
                 }
                 let mut first = true;
                 for d in depths {
-                    run_case(&Case { fen: fen.clone(), moves: moves.clone(), depth: d, nodes: None, stop: 0, cache: if first { "fresh" } else { "keep" }, tag: String::new(), clock_ms: 0, vdiv: 0 });
+                    run_case(&Case { fen: fen.clone(), moves: moves.clone(), depth: d, nodes: None, stop: 0, cache: if first { "fresh" } else { "keep" }, tag: String::new(), tc: NO_TC, vdiv: 0 });
                     first = false;
                 }
             }
@@ -325,7 +361,21 @@ pub fn search_stream(args: &[String]) {
                 let mut k = 1 + rng.below(step);
                 while k <= total + 1 {
                     // vdiv = 1: one virtual millisecond per consultation; timer = clock / 20 = k  =>  expires at the (k+1)-th consultation
-                    run_case(&Case { fen: fen.clone(), moves: moves.clone(), depth: maxdepth, nodes: None, stop: 0, cache: "fresh", tag: String::new(), clock_ms: 20 * k, vdiv: 1 });
+                    // the mover's allowance is time / 20 + inc / 2; three flavours reach the same allowance k:
+                    // both clocks equal; the mover's own clock and increment with very different ones for the opponent; movetime
+                    let white = board.current_turn == Color::White;
+                    let tc = match rng.below(4) {
+                        0 => [Some(20 * k), Some(20 * k), None, None, None],
+                        1 | 2 => {
+                            let a = rng.below(k + 1);
+                            let (mt, mi) = (Some(20 * (k - a) + rng.below(20)), Some(2 * a + rng.below(2)));
+                            let (ot, oi) = (Some(20 * (k + 1 + rng.below(5000))), Some(2 * (a + 1 + rng.below(3000))));
+                            let (ot, oi) = if rng.below(3) == 0 { (Some(rng.below(20 * k + 1) / 2), Some(0)) } else { (ot, oi) };
+                            if white { [mt, ot, mi, oi, None] } else { [ot, mt, oi, mi, None] }
+                        }
+                        _ => [None, None, None, None, Some(k)],
+                    };
+                    run_case(&Case { fen: fen.clone(), moves: moves.clone(), depth: maxdepth, nodes: None, stop: 0, cache: "fresh", tag: String::new(), tc, vdiv: 1 });
                     k += step;
                 }
             }
@@ -344,7 +394,43 @@ pub fn search_stream(args: &[String]) {
                     continue;
                 }
                 for _ in 0..repeat.max(2) {
-                    run_case(&Case { fen: fen.to_string(), moves: vec![], depth: maxdepth, nodes: None, stop: 0, cache: "fresh", tag: "tag=deep".to_string(), clock_ms: 0, vdiv: 0 });
+                    run_case(&Case { fen: fen.to_string(), moves: vec![], depth: maxdepth, nodes: None, stop: 0, cache: "fresh", tag: "tag=deep".to_string(), tc: NO_TC, vdiv: 0 });
+                }
+            }
+        }
+        "xcheck" => {
+            // open positions with several queens: long chains of checks answered by checks (extensions on both sides);
+            // every case is run twice in a row in this process, only the implementation's own runs are compared
+            let mut made = 0usize;
+            while made < count {
+                let Some(b) = random_profile(&mut rng, 1) else { continue };
+                made += 1;
+                if !mine(&mut idx) {
+                    continue;
+                }
+                let fen = render_fen(&b);
+                let d = 2 + (made % usize::from(maxdepth.max(2) - 1)) as u8;
+                for _ in 0..repeat.max(2) {
+                    run_case(&Case { fen: fen.clone(), moves: vec![], depth: d, nodes: None, stop: 0, cache: "fresh", tag: "tag=deep".to_string(), tc: NO_TC, vdiv: 0 });
+                }
+            }
+        }
+        "promo" => {
+            // pawns one or two steps from promotion next to capturable pieces, material far from balanced, cache neutralised:
+            // capture-promotions inside the quiescence search, root score vs plain minimax (C11)
+            let mut made = 0usize;
+            while made < count {
+                let Some(mut b) = random_profile(&mut rng, 2) else { continue };
+                if b.get_legal_moves().is_empty() {
+                    continue;
+                }
+                made += 1;
+                if !mine(&mut idx) {
+                    continue;
+                }
+                let fen = render_fen(&b);
+                for d in 1..=maxdepth {
+                    run_case(&Case { fen: fen.clone(), moves: vec![], depth: d, nodes: None, stop: 0, cache: "off", tag: String::new(), tc: NO_TC, vdiv: 0 });
                 }
             }
         }
@@ -362,7 +448,7 @@ pub fn search_stream(args: &[String]) {
                         break;
                     }
                     let d = if step % 2 == 0 { maxdepth } else { maxdepth.saturating_sub(1).max(1) };
-                    let best = run_case_best(&Case { fen: fen.clone(), moves: moves.clone(), depth: d, nodes: None, stop: 0, cache: if step == 0 { "fresh" } else { "keep" }, tag: String::new(), clock_ms: 0, vdiv: 0 });
+                    let best = run_case_best(&Case { fen: fen.clone(), moves: moves.clone(), depth: d, nodes: None, stop: 0, cache: if step == 0 { "fresh" } else { "keep" }, tag: String::new(), tc: NO_TC, vdiv: 0 });
                     let Some(bm) = best else { break };
                     moves.push(bm.to_notation());
                     b.make_move(bm);
@@ -493,6 +579,73 @@ fn random_sparse(rng: &mut Rng) -> Option<Board> {
     Some(b)
 }
 
+/// profile 1: kings, two queens each, up to two more pieces each, no pawns (cross-checks);
+/// profile 2: kings, one to three far-advanced pawns for one side with enemy pieces on the promotion rank next to them, a few heavy pieces
+fn random_profile(rng: &mut Rng, profile: u8) -> Option<Board> {
+    let mut sq: Vec<usize> = (0..64).collect();
+    for i in (1..64).rev() {
+        let j = rng.below(i as u64 + 1) as usize;
+        sq.swap(i, j);
+    }
+    let mut grid = [None::<char>; 64];
+    let mut next = 0usize;
+    let mut place = |grid: &mut [Option<char>; 64], c: char, want: Option<usize>| {
+        if let Some(s) = want {
+            if grid[s].is_none() {
+                grid[s] = Some(c);
+                return;
+            }
+        }
+        while next < 64 {
+            let s = sq[next];
+            next += 1;
+            if grid[s].is_none() && !((c == 'P' || c == 'p') && (s / 8 == 0 || s / 8 == 7)) {
+                grid[s] = Some(c);
+                return;
+            }
+        }
+    };
+    if profile == 1 {
+        for c in ['K', 'k', 'Q', 'Q', 'q', 'q'] {
+            place(&mut grid, c, None);
+        }
+        let extra = ['R', 'B', 'N', 'r', 'b', 'n', 'Q', 'q'];
+        for _ in 0..rng.below(5) {
+            place(&mut grid, extra[rng.below(extra.len() as u64) as usize], None);
+        }
+    } else {
+        let white = rng.below(2) == 0; // the side with the advanced pawns
+        let (pawn, rank, last) = if white { ('P', 5 + rng.below(2) as usize, 7usize) } else { ('p', 2 - rng.below(2) as usize, 0usize) };
+        let victims = if white { ['n', 'b', 'r', 'q'] } else { ['N', 'B', 'R', 'Q'] };
+        for _ in 0..1 + rng.below(3) {
+            let f = rng.below(8) as usize;
+            place(&mut grid, pawn, Some(rank * 8 + f));
+            for df in [-1i32, 1] {
+                let g = f as i32 + df;
+                if (0..8).contains(&g) && rng.below(3) != 0 {
+                    place(&mut grid, victims[rng.below(4) as usize], Some(last * 8 + g as usize));
+                }
+            }
+        }
+        place(&mut grid, 'K', None);
+        place(&mut grid, 'k', None);
+        let heavy = if white { ['q', 'r', 'r', 'Q', 'n', 'b'] } else { ['Q', 'R', 'R', 'q', 'N', 'B'] };
+        for _ in 0..rng.below(4) {
+            place(&mut grid, heavy[rng.below(heavy.len() as u64) as usize], None);
+        }
+    }
+    if grid.iter().filter(|c| **c == Some('K')).count() != 1 || grid.iter().filter(|c| **c == Some('k')).count() != 1 {
+        return None;
+    }
+    let turn = if rng.below(2) == 0 { "w" } else { "b" };
+    let fen = format!("{} {turn} - - 0 1", grid_placement(&grid));
+    let b = Board::from_fen(&fen);
+    if b.is_in_check(b.current_turn.opposite()) {
+        return None;
+    }
+    Some(b)
+}
+
 fn mate_mode(rng: &mut Rng, count: usize, maxdepth: u8, shard: usize, of: usize, cache_off: bool) {
     let mut found = 0usize;
     let mut tries = 0u64;
@@ -550,17 +703,17 @@ fn mate_mode(rng: &mut Rng, count: usize, maxdepth: u8, shard: usize, of: usize,
         if cache_off {
             // positions rich in forced mates of different lengths, cache neutralised: root score vs plain minimax (C11)
             for d in 2..=maxdepth.max(3) {
-                run_case(&Case { fen: fen.clone(), moves: vec![], depth: d, nodes: None, stop: 0, cache: "off", tag: String::new(), clock_ms: 0, vdiv: 0 });
+                run_case(&Case { fen: fen.clone(), moves: vec![], depth: d, nodes: None, stop: 0, cache: "off", tag: String::new(), tc: NO_TC, vdiv: 0 });
             }
             continue;
         }
         // fresh at 3 and at the maximum depth, then after earlier searches at the other depths in a random order
         for d in [3u8, maxdepth.max(3)] {
-            run_case(&Case { fen: fen.clone(), moves: vec![], depth: d, nodes: None, stop: 0, cache: "fresh", tag: tag.clone(), clock_ms: 0, vdiv: 0 });
+            run_case(&Case { fen: fen.clone(), moves: vec![], depth: d, nodes: None, stop: 0, cache: "fresh", tag: tag.clone(), tc: NO_TC, vdiv: 0 });
         }
         let mut first = true;
         for d in depths {
-            run_case(&Case { fen: fen.clone(), moves: vec![], depth: d, nodes: None, stop: 0, cache: if first { "fresh" } else { "keep" }, tag: tag.clone(), clock_ms: 0, vdiv: 0 });
+            run_case(&Case { fen: fen.clone(), moves: vec![], depth: d, nodes: None, stop: 0, cache: if first { "fresh" } else { "keep" }, tag: tag.clone(), tc: NO_TC, vdiv: 0 });
             first = false;
         }
     }
